@@ -157,8 +157,17 @@ def mkdofpv_case(args):
 
     present = [z3.Or(*[rc == c for c in code]) for rc in rcode]
     # expanddof's contract for (id, component 0..6) pairs: identity (checked separately by evaluation)
+    def _paths():
+        # a configuration whose path count exceeds the explorer's budget is reported as undecided (what was explored up to then stands), never as a crash
+        try:
+            for item in ex.explore(body, assumptions=pre):
+                yield item
+        except RuntimeError as rex:
+            if "path budget" not in str(rex):
+                raise
+            res.append(("mkdofpv[set %d, request %d, strict=%s]::all paths explored" % (nset, nreq, strict), "undecided", "path budget of the explorer exceeded after %d paths" % npth))
     with dse.ShimZ(n2p):
-        for pc, val, exc in ex.explore(body, assumptions=pre):
+        for pc, val, exc in _paths():
             npth += 1
             nm = "mkdofpv[set %d, request %d, strict=%s]::path%d" % (nset, nreq, strict, npth)
             if exc is not None:
@@ -414,7 +423,7 @@ def run(tier, seed):
     usetmask_table(n2p, vs)
     P = report.pool()
     setcases = [(M, m_, 3) for M, m_ in (("p", "b"), ("a", "q"), ("a", "b+c"), ("g", "m"), ("f", "o"), ("n", "s"), ("t", "r"), ("a", "o"), ("b", "a"), ("l", "q"))]
-    dofcases = [(3, 2, True), (3, 2, False), (2, 3, False), (2, 3, True)] + ([(3, 4, False), (3, 3, True)] if tier == "thorough" else [])
+    dofcases = [(3, 2, True), (3, 2, False), (2, 3, False), (2, 3, True)] + ([(2, 4, False), (3, 3, True)] if tier == "thorough" else [])
     r1 = P.map_async(mksetpv_case, setcases, chunksize=1)
     r2 = P.map_async(mkdofpv_case, dofcases, chunksize=1)
     r3 = P.map_async(index2slice_case, [0, 1, 2, 3, 4], chunksize=1)
